@@ -213,7 +213,8 @@ def weave(src, specs):
         fn = sp['function']
         prev, rp, lb, rb = find_function(src, toks, fn)
         loops, nloops = loops_of(src, toks, lb, rb)
-        info[fn] = nloops
+        sig = re.sub(r'(?m)^#.*$', '', src[toks[prev][2] if prev >= 0 else 0:toks[rp][2]]).strip()
+        info[fn] = dict(nloops=nloops, signature=sig)
         if sp['nloops'] is not None and sp['nloops'] != nloops:
             raise WeaveError(f'{fn}: spec was written for {sp["nloops"]} loops, source has {nloops}')
         for n in sp['loops']:
